@@ -35,3 +35,6 @@ pub fn vec2<T>(a: T, b: T) -> (v: Vec<T>)
     v.push(b);
     v
 }
+
+pub assume_specification<T>[ core::mem::replace::<T> ](dest: &mut T, src: T) -> (r: T)
+    ensures r == *old(dest), *final(dest) == src;
